@@ -328,6 +328,7 @@ static void doOp(const std::vector<std::string>& f)
     Ctx& s = C(f[1]); Ctx c; c.out.open(); c.ctx = s.ctx->clone(c.out.fd, c.out.fd);
     g_ctx[f[2]] = c; reply("ok");
   }
+  else if (op == "trust") { C(f[1]).ctx->trusted(f[2] == "1"); reply("ok"); }
   else if (op == "purge") { C(f[1]).ctx->purge(); reply("ok"); }
   else if (op == "free") { freeCtx(f[1]); reply("ok"); }
   else if (op == "reg")
